@@ -260,7 +260,7 @@ Proof.
     assert (Hcell : forall j, Z.max n k - c + 1 <= j <= Z.max n k ->
               get_cell (set_nth (Z.to_nat (wrap c k)) v (cells b)) (j mod c)
               = if j =? k then v else get_cell (cells b) (j mod c)).
-    { intros j Hj. unfold wrap. rewrite get_set_nth; [| unfold c, cap in *; lia | apply Z.mod_pos_bound; lia].
+    { intros j Hj. rewrite wrap_mod. rewrite get_set_nth; [| unfold c, cap in *; lia | apply Z.mod_pos_bound; lia].
       destruct (j =? k) eqn:Ej.
       - assert (j = k) by lia. subst j. rewrite Z.eqb_refl. reflexivity.
       - destruct (j mod c =? k mod c) eqn:Em; [|reflexivity].
@@ -289,12 +289,12 @@ Proof.
     split; [exact G'|]. split; [|split].
     + intros j Hj. rewrite (M' j Hj).
       destruct (j =? k) eqn:Ej.
-      * assert (j = k) by lia. subst j. unfold wrap.
+      * assert (j = k) by lia. subst j. rewrite wrap_mod.
         rewrite get_set_nth; [|unfold c, cap in *; lia|lia]. rewrite Z.eqb_refl. destruct v; reflexivity.
       * destruct (j <? k - c + 1); [reflexivity|apply M].
     + intros j Hj Hmiss. rewrite (M' j Hj) in Hmiss.
       destruct (j =? k) eqn:Ej; [|discriminate].
-      assert (j = k) by lia. subst j. unfold wrap.
+      assert (j = k) by lia. subst j. rewrite wrap_mod.
       rewrite get_set_nth; [|unfold c, cap in *; lia|lia]. rewrite Z.eqb_refl. destruct v; discriminate.
     + intros j Hj. destruct (j =? k) eqn:Ej; [lia|].
       destruct (j <? k - c + 1); [reflexivity|apply M].
